@@ -228,17 +228,21 @@ def _classify(diags, table, unit, cfg):
     return failures, undecided
 
 
-def run_unit(unit, tier='quick', seed=0):
+def _run_unit_once(unit, tier, seed, carry):
     cfg = units_cfg()[unit]
     t0 = time.time()
     wdir = os.path.join(WORK, 'units', unit)
     shutil.rmtree(wdir, ignore_errors=True)
     os.makedirs(wdir, exist_ok=True)
-    res = {'unit': unit, 'status': 'ok', 'failures': [], 'undecided': [], 'properties': cfg['properties'], 'tier': tier}
+    res = {'unit': unit, 'status': 'ok', 'failures': [], 'undecided': [], 'properties': cfg['properties'], 'tier': tier,
+           'auto_shims': dict(carry.get('auto_shims', {})), 'auto_havoc_decls': list(carry.get('auto_havoc_decls', [])),
+           'auto_havoc': list(carry.get('auto_havoc', []))}
     crate = 'u_' + unit
+    extra_shims = dict(res.get('auto_shims') or {})
+    havoc = list(res.get('auto_havoc_decls') or [])
     try:
-        text, table, meta = assemble(os.path.join(VERIF, cfg['template']))
-        ctext, ctable, _ = assemble(os.path.join(VERIF, cfg['template']), canary=True)
+        text, table, meta = assemble(os.path.join(VERIF, cfg['template']), extra_shims=extra_shims, havoc_decls=havoc)
+        ctext, ctable, _ = assemble(os.path.join(VERIF, cfg['template']), canary=True, extra_shims=extra_shims, havoc_decls=havoc)
     except LiftError as e:
         res['status'] = 'undecided'
         res['undecided'].append(f'lift: {e}')
@@ -284,6 +288,8 @@ def run_unit(unit, tier='quick', seed=0):
         if r['summary'] is None:
             res['undecided'].append(f'verus produced no summary (rc={r["rc"]}): ' + ' | '.join(r['stderr_other'][:3])[:500])
         fails, und = _classify(r['diags'], table, unit, cfg)
+        if sd is None:
+            res['_diags'] = r['diags']
         for f in fails:
             f['smt_seed'] = sd
         if sd is None:
@@ -346,9 +352,66 @@ def run_unit(unit, tier='quick', seed=0):
     return res
 
 
+# provided trait methods for which a shim with a real contract exists (applied on demand, when the verifier reports the method
+# as unsupported in lifted code): name -> (shim, receiver prefix)
+SHIM_TABLE = {'nth': ('vx_iter_nth', ''), 'count': ('vx_iter_count', ''), 'any': ('vx_iter_any', ''), 'all': ('vx_iter_all', ''),
+              'last': ('vx_iter_last', ''), 'map': ('vx_iter_map', ''), 'peekable': ('vx_peekable', '')}
+
+
+def _unsupported(diags):
+    """(provided-method names, pasted declarations, their function paths) from `X is not supported` diagnostics."""
+    methods, decls, paths = [], [], []
+    for d in diags:
+        msg = d.get('message', '')
+        m = re.match(r'`([^`]+)` is not supported', msg)
+        if not m:
+            continue
+        pth = m.group(1)
+        if '%default%' in pth:
+            methods.append(pth.split('%default%')[-1])
+            continue
+        rendered = d.get('rendered', '')
+        h = re.search(r'= help: The following declaration may resolve this error:\n((?:[ \t]+[^\n]*\n)+)', rendered)
+        if h:
+            decl = '\n'.join(l.strip() for l in h.group(1).splitlines() if l.strip())
+            decl = decl.replace('#[verifier::external_type_specification]', '#[verifier::external_type_specification]\n#[verifier::external_body]')
+            decls.append(decl)
+            paths.append(pth)
+    return methods, decls, paths
+
+
+def run_unit(unit, tier='quick', seed=0):
+    """Run a unit; when the lifted code calls std functions the contract library does not know, retry with (a) shims that have a
+    real contract (SHIM_TABLE) or (b) the verifier's own suggested declaration, unconstrained (auto-havoc)."""
+    carry = {}
+    r = None
+    for _round in range(4):
+        r = _run_unit_once(unit, tier, seed, carry)
+        und = [u for u in r['undecided'] if 'is not supported' in u]
+        if not und:
+            break
+        methods, decls, paths = _unsupported(r.get('_diags', []))
+        new = False
+        for mname in methods:
+            if mname in SHIM_TABLE and mname not in carry.setdefault('auto_shims', {}):
+                carry['auto_shims'][mname] = SHIM_TABLE[mname]
+                new = True
+        for dcl, pth in zip(decls, paths):
+            if dcl not in carry.setdefault('auto_havoc_decls', []):
+                carry['auto_havoc_decls'].append(dcl)
+                carry.setdefault('auto_havoc', []).append(pth)
+                new = True
+        if not new:
+            break
+    r.pop('_diags', None)
+    return r
+
+
 def print_unit_result(r):
     print(f"unit {r['unit']}: {r['status']}  obligations={r.get('obligations')} discharged={r.get('discharged')} "
           f"verified_fns={r.get('verus_verified')} canary={r.get('canary')} smt_ms={r.get('smt_time_ms')} wall={r.get('wall_s', 0):.1f}s")
+    if r.get('auto_havoc') or r.get('auto_shims'):
+        print('  auto-repair: shims', sorted((r.get('auto_shims') or {}).keys()), 'unconstrained std functions', r.get('auto_havoc'))
     for u in r['undecided']:
         print('  UNDECIDED:', u)
     for f in r['failures']:
@@ -390,12 +453,18 @@ def check_property(pid, tier='quick', seed=0):
     kf_lines = rp.known_finding_lines(pid, kf, results)
     nviol = 0
     seen = set()
+    havocked = {r['unit']: r.get('auto_havoc', []) for r in results}
     for unit, f in violations:
         key = (unit, f['obligation'])
         if key in seen:
             continue
         seen.add(key)
         path, found = rp.make_replay(pid, unit, f, seed)
+        if havocked.get(unit) and not found:
+            # the obligation fails in a run where std functions unknown to the contract library were left unconstrained:
+            # without a failing input replayed on the real code this is "cannot decide", not a violation
+            undecided.append(f"{unit}: {f['obligation']} fails with unconstrained std function(s) {havocked[unit]} and no failing input was found on the real code")
+            continue
         nviol += 1
         lines.append(f'VIOLATION property={pid} replay={path}' + ('' if found else ' no-failing-input-found'))
     thorough_extra = {}
@@ -469,6 +538,7 @@ def write_evidence(pid, tier, seed, results, nviol, undecided, kf_lines, wall, e
                        'verus_functions_verified': r.get('verus_verified'), 'verus_errors': r.get('verus_errors'),
                        'smt_time_ms': r.get('smt_time_ms'), 'wall_s': round(r.get('wall_s', 0), 2), 'canary': r.get('canary'),
                        'failures': [{k: f[k] for k in ('obligation', 'kind', 'source', 'properties')} for f in r['failures']],
+                       'auto_shims': sorted((r.get('auto_shims') or {}).keys()), 'auto_havoc_unconstrained_std_functions': r.get('auto_havoc', []),
                        'undecided': r['undecided']} for r in results],
             'lift_rewrites': rewrites,
             'smt_time_ms': sum(r.get('smt_time_ms', 0) for r in results),
